@@ -247,7 +247,24 @@ pub fn eval(expr: Node) -> Result<Number, Box<dyn error::Error>> {
                         Ok(Number::Float(gamma((n as f64) + 1.0)))
                     }
                 }
-                Number::Float(n) => Ok(Number::Float(gamma(n + 1.0))),
+                Number::Float(n) => {
+                    // a whole, non-negative Float is a factorial proper (as in eval_f64), not a Gamma approximation
+                    if n >= 0.0 {
+                        if (n % 1.0) > 0.0 {
+                            Ok(Number::Float(gamma(n + 1.0)))
+                        } else if n > 170.0 {
+                            Ok(Number::Float(f64::INFINITY))
+                        } else {
+                            let mut factorial_result = 1.0;
+                            for i in 2..=(n as usize) {
+                                factorial_result *= i as f64;
+                            }
+                            Ok(Number::from(factorial_result))
+                        }
+                    } else {
+                        Ok(Number::Float(gamma(n + 1.0)))
+                    }
+                }
             }
         }
         LambertW(expr) => {
